@@ -33,7 +33,9 @@ NAMINGS = {"plain": ("a.txt", "other.txt"), "blank": ("a b.txt", "o ther.txt"), 
             # 13 pattern files reached through one glob, the unrelated file lives below the same directory
             "many-in-dir": ("pkg/mod_00.py", "pkg/sub/other.txt"),
             # the project (config + files) lives in packages/core/ of a larger repository; bumpver runs there
-            "subdir-project": ("a.txt", "other.txt")}
+            "subdir-project": ("a.txt", "other.txt"),
+            # the pattern file carries only a partial pattern (MAJOR.MINOR) that a --patch bump leaves unchanged
+            "unchanging-pattern-file": ("a.txt", "other.txt")}
 # how the configuration spells the pattern file (the file itself has the canonical name)
 CONFIG_SPELLING = {"dot-slash": "./a.txt", "subdir-dot": "sub/../a.txt", "many-in-dir": "pkg/mod_*.py"}
 GONE = ("deleted-staged", "deleted-unstaged", "renamed")
@@ -60,6 +62,7 @@ def explore(tier, seed):
             chunks.append(("dot-slash", "bumpver.toml", ps, ("clean", "untracked")))
             chunks.append(("subdir-dot", "setup.cfg", ps, ("clean",)))
             chunks.append(("subdir-project", "bumpver.toml", ps, ("clean", "modified-unstaged", "modified-staged")))
+            chunks.append(("unchanging-pattern-file", "bumpver.toml", ps, ("clean", "modified-unstaged")))
             if ps not in GONE:
                 # (a file that no longer exists under a name the glob matches is not a configured file any more)
                 chunks.append(("many-in-dir", "bumpver.toml", ps, ("clean", "modified-unstaged", "untracked")))
@@ -130,9 +133,10 @@ def run_case(st, base, naming, fmt, ps, us, allow, crowd=0, extra=()):
         shutil.rmtree(d)
     os.makedirs(d)
     os.chdir(d)
-    cfg = pt.config_text(fmt, "MAJOR.MINOR.PATCH", "1.2.3", [(CONFIG_SPELLING.get(naming, pfile), ["ver={version};"])], extra="commit = true\ntag = true\npush = false"
+    fpat, fbody = ("api=MAJOR.MINOR;", b"api=1.2;\n") if naming == "unchanging-pattern-file" else ("ver={version};", b"ver=1.2.3;\n")
+    cfg = pt.config_text(fmt, "MAJOR.MINOR.PATCH", "1.2.3", [(CONFIG_SPELLING.get(naming, pfile), [fpat])], extra="commit = true\ntag = true\npush = false"
                          if fmt.endswith(".toml") else "commit = True\ntag = True\npush = False")
-    files = {fmt: cfg.encode("utf-8"), pfile: b"ver=1.2.3;\n", ufile: b"unrelated\n"}
+    files = {fmt: cfg.encode("utf-8"), pfile: fbody, ufile: b"unrelated\n"}
     for sib in SIBLINGS.get(naming, ()):
         files[sib] = b"ver=1.2.3;\n"
     crowd_files = [f"0crowd{i:02d}.txt" for i in range(crowd)]  # sort before the pattern file
